@@ -59,11 +59,49 @@ func ruleTextRune(c *Ctx, r *Report) {
 		for _, f := range withAnon(fn) {
 			// string values originating from Atom.String() (through local/captured variables and slicing by range offsets)
 			isAtomText := func(v ssa.Value) bool {
+				// (added after seed C02e) the compact list representations are texts too: a list of n characters
+				// held as a Go string of >= n bytes
+				if isEngNamed(v.Type(), "charList") || isEngNamed(v.Type(), "codeList") {
+					return true
+				}
+				if cv, ok := v.(*ssa.Convert); ok && (isEngNamed(cv.X.Type(), "charList") || isEngNamed(cv.X.Type(), "codeList")) {
+					return true
+				}
 				ok, _ := c.comesOnlyFrom(v, func(l ssa.Value) bool {
 					call, _ := callOfValue(l)
 					return call != nil && call.Call.StaticCallee() == atomString
 				})
 				return ok
+			}
+			// a byte offset that lies on a character boundary of `text`: the size utf8.DecodeRuneInString reports
+			// for the first character of the same text
+			isByteOffset := func(v, text ssa.Value) bool {
+				ex, ok := v.(*ssa.Extract)
+				if !ok || ex.Index != 1 {
+					return false
+				}
+				call, ok := ex.Tuple.(*ssa.Call)
+				if !ok {
+					return false
+				}
+				callee := call.Call.StaticCallee()
+				if callee == nil || callee.Pkg == nil || callee.Pkg.Pkg.Path() != "unicode/utf8" || callee.Name() != "DecodeRuneInString" {
+					return false
+				}
+				a := call.Call.Args[0]
+				strip := func(v ssa.Value) ssa.Value {
+					for {
+						switch y := v.(type) {
+						case *ssa.Convert:
+							v = y.X
+						case *ssa.ChangeType:
+							v = y.X
+						default:
+							return v
+						}
+					}
+				}
+				return strip(a) == strip(text) || c.sameStringValue(strip(a), strip(text))
 			}
 			eachInstr(f, func(in ssa.Instruction) {
 				switch x := in.(type) {
@@ -99,7 +137,7 @@ func ruleTextRune(c *Ctx, r *Report) {
 									if other == v {
 										other = u.X
 									}
-									if k, ok := constInt(other); !ok || k != 0 {
+									if k, ok := constInt(other); (!ok || k != 0) && !isByteOffset(other, x.Call.Args[0]) {
 										bad = "compared with a non-zero value at " + c.at(u)
 									}
 								default:
@@ -133,6 +171,9 @@ func ruleTextRune(c *Ctx, r *Report) {
 						}
 						for _, l := range c.originSet(idx) {
 							if k, ok := constInt(l); ok && k == 0 {
+								continue
+							}
+							if isByteOffset(l, x.X) {
 								continue
 							}
 							ex, ok := l.(*ssa.Extract)
@@ -341,15 +382,8 @@ func rulePositionPairing(c *Ctx, r *Report) {
 				if op.kind != "write" && op.name != "ReadRune" {
 					onSuccess := false
 					for f := range c.factsAt(st.Block()) {
-						bo2, ok := f.cond.(*ssa.BinOp)
+						errv, op2, ok := nilCmp(f.cond)
 						if !ok {
-							continue
-						}
-						var errv ssa.Value
-						if isNilConst(bo2.Y) {
-							errv = bo2.X
-						}
-						if errv == nil {
 							continue
 						}
 						fromOp := false
@@ -361,7 +395,7 @@ func rulePositionPairing(c *Ctx, r *Report) {
 								fromOp = true
 							}
 						}
-						if fromOp && ((bo2.Op == token.EQL && f.pol) || (bo2.Op == token.NEQ && !f.pol)) {
+						if fromOp && ((op2 == token.EQL && f.pol) || (op2 == token.NEQ && !f.pol)) {
 							onSuccess = true
 						}
 					}
@@ -824,18 +858,14 @@ func ruleEOFActionPast(c *Ctx, r *Report) {
 			desc := "eof_action is applied only in state past"
 			good := false
 			for f := range c.factsAt(bo.Block()) {
-				cmp, ok := f.cond.(*ssa.BinOp)
+				x, op, k, ok := cmpConst(f.cond)
 				if !ok {
 					continue
 				}
-				if _, ok := loadsField(cmp.X, "Stream", "endOfStream"); !ok {
+				if _, ok := loadsField(x, "Stream", "endOfStream"); !ok {
 					continue
 				}
-				k, isK := constInt(cmp.Y)
-				if !isK {
-					continue
-				}
-				if k == pastV && ((cmp.Op == token.EQL && f.pol) || (cmp.Op == token.NEQ && !f.pol)) {
+				if k == pastV && ((op == token.EQL && f.pol) || (op == token.NEQ && !f.pol)) {
 					good = true
 				}
 			}
